@@ -203,7 +203,9 @@ def _optimise_operator(op):
                     if first_difference == len(leaf_op._ops):
                         setattr(parent, attr, same_leaf[key][1])
                     else:
-                        leaf_op._ops = leaf_op._ops[:-first_difference] + (same_leaf[key][1],)
+                        # do not edit in place: the same _OpChain object may sit at several leaves
+                        setattr(parent, attr, _OpChain.make(
+                            leaf_op._ops[:-first_difference] + (same_leaf[key][1],)))
                 else:
                     setattr(parent, attr, same_leaf[key][1])
         return key_list_leaf, same_leaf
